@@ -353,4 +353,37 @@ def run(F, rep):
     from engines import rule_markup_search
     rule_markup_search(F, rep, 'C06.X1', lambda g: '/src/' in g.file and not g.file.endswith('/printer.cpp'), 'the library (printer excepted, which writes markup)')
 
+    # ------------------------------------------------------------------ O: order and object of the units transfer
+    rep.rule('C06.O1', 'unitsUsed lists the units a units is built on BEFORE that units (flattenComponent transfers them in list order and resolves equivalent importer units on the way): the insertion of referencedUnits(model, u) precedes the push_back of u on every path')
+    from faillog import _can_reach as _cr6
+    uu = F.fn_rec('libcellml::unitsUsed') if hasattr(F, 'fn_rec') else F.fn1('libcellml::unitsUsed')
+    cfg6 = uu.cfg()
+    n_o1 = 0
+    for v in uu.walk():
+        if v.get('k') == 'Var' and v.get('c') and any(c.get('k') == 'Call' and c.get('fn') == 'referencedUnits' for c in walk(v['c'][0])):
+            rc_ = next(c for c in walk(v['c'][0]) if c.get('k') == 'Call' and c.get('fn') == 'referencedUnits')
+            subj = render(nth_arg(rc_, 1))
+            ins = [c for c in uu.walk() if c.get('k') == 'Call' and c.get('fn') == 'insert' and any(x.get('k') == 'Ref' and x.get('d') == v['d'] for x in walk(c))]
+            blk = next((role(a, 'body') for a in uu.ancestors(v) if a.get('k') in ('For', 'RangeFor', 'While')), None)
+            pushes = [c for c in walk(blk or {}) if c.get('k') == 'Call' and c.get('fn') in ('push_back', 'emplace_back') and render(nth_arg(c, 0)) == subj]
+            for p_ in pushes:
+                n_o1 += 1
+                # both statements are in the body of the same loop: within one iteration the later one is the one written further down
+                late = [i_ for i_ in ins if _cr6(cfg6, p_, i_) and (not _cr6(cfg6, i_, p_) or i_.get('l', 0) > p_.get('l', 0))]
+                rep.check(bool(ins) and not late, 'C06.O1', 'unitsUsed|%s' % subj, uu.where(p_), 'unitsUsed appends `%s` before the units it is built on (the insertion of %s comes later)' % (subj, v['n']), 'dependencies first')
+    if n_o1 < 2:
+        raise AnalysisBroken('C06.O1: unitsUsed: %d units/dependencies pairs found, 2 confirmed' % n_o1)
+    rep.rule('C06.O2', 'in flattenComponent the references of required units are re-pointed at renamed units on the very object that is transferred into the flat model (the argument of transferUnitsRenamingIfRequired), '
+                       'not on the units of the library model it was cloned from (for units the library itself imports that is an empty stub)')
+    fcp = F.fn1('libcellml::flattenComponent')
+    tr = [c for c in fcp.walk() if c.get('k') == 'Call' and c.get('fn') == 'transferUnitsRenamingIfRequired']
+    sets = [c for c in fcp.walk() if c.get('k') == 'Call' and c.get('mc') and c.get('fn') == 'setUnitAttributeReference']
+    if not tr or not sets:
+        raise AnalysisBroken('flattenComponent: transferUnitsRenamingIfRequired / setUnitAttributeReference vanished')
+    moved = {render(nth_arg(c, 2)) for c in tr}
+    for c in sets:
+        rcv = render(c['c'][0])
+        rcv = rcv[:-2] if rcv.endswith('->') else rcv
+        rep.check(any(rcv.startswith(m_) for m_ in moved), 'C06.O2', 'flattenComponent|%s' % render(c)[:50], fcp.where(c), 'the references are corrected on `%s` but `%s` is what is transferred' % (rcv, sorted(moved)), 'corrected on the transferred object')
+
 
